@@ -281,8 +281,9 @@ int main(int argc, char **argv) {
     bool weighted = (comp == "sptree" || comp == "collections");
     int orient_mode = (int) A.geti("orient", 0);
     vg::plus_heavy_k2() = A.has("plus-heavy-k2");
+    vg::edge_order_mode() = (int) A.geti("eorder", 0);
     auto unit_graph0 = [&](uint64_t u) { uint64_t uu = (u + seed) % total_units; return blob ? blob->build(uu) : !fams.empty() ? vg::relabel(vg::family(fams[uu / relabel_n]), (int) (uu % relabel_n)) : sparse_m >= 0 ? vg::sparse_graph(n, sparse_m, uu) : vg::graph_from_mask(n, uu); };
-    auto unit_graph = [&](uint64_t u) { vg::EdgeList g = unit_graph0(u); vg::orient(g, orient_mode); if (vg::plus_heavy_k2()) { g.e.push_back({g.n, g.n + 1}); g.n += 2; } return g; };
+    auto unit_graph = [&](uint64_t u) { vg::EdgeList g = unit_graph0(u); vg::order_edges(g); vg::orient(g, orient_mode); if (vg::plus_heavy_k2()) { g.e.push_back({g.n, g.n + 1}); g.n += 2; } return g; };
     auto describe = [&](uint64_t u, uint64_t sub, uint64_t) {
         vg::EdgeList el = unit_graph(u);
         std::vector<double> w;
